@@ -246,7 +246,7 @@ Qed.
 Section Wake.
 Variable absorb_n : nat.
 Variable no_limit : N.
-Variable react : nat -> list msg * bool.
+Variable react : nat -> list (chanid * msg) * bool.
 Hypothesis Hnl : (0 < no_limit)%N.
 
 (* StartInternalThread as repaired *)
@@ -296,17 +296,17 @@ Proof.
     + destruct (F9 CI) as (Q & _). exact Q.
     + intros R. rewrite (readable_CI_same (s_g s) _); auto. apply F10. discriminate.
     + rewrite El. reflexivity.
-  - apply A_i_transfer; auto. rewrite El. reflexivity.
-  - destruct x; [destruct k; contradiction|]. apply A_i_transfer; auto. rewrite El. reflexivity.
-  - apply A_i_transfer; auto. rewrite El. reflexivity.
-  - apply A_i_transfer; auto. rewrite El. reflexivity.
-  - apply A_i_transfer; auto. rewrite El. reflexivity.
-  - apply A_i_transfer; auto. rewrite El. reflexivity.
-  - apply A_i_transfer; auto. rewrite El. reflexivity.
-  - destruct x; [destruct k; contradiction|]. apply A_i_transfer; auto. rewrite El. reflexivity.
-  - apply A_i_transfer; auto. rewrite El. reflexivity.
-  - apply A_i_transfer; auto. rewrite El. reflexivity.
-  - apply A_i_transfer; auto. rewrite El. reflexivity.
+  - unfold park_flags; try match goal with y : chanid |- _ => destruct y; [destruct k; contradiction|] end; try destruct (u_reg (g_usr (s_g s))); apply A_i_transfer; auto; rewrite El; reflexivity.
+  - unfold park_flags; try match goal with y : chanid |- _ => destruct y; [destruct k; contradiction|] end; try destruct (u_reg (g_usr (s_g s))); apply A_i_transfer; auto; rewrite El; reflexivity.
+  - unfold park_flags; try match goal with y : chanid |- _ => destruct y; [destruct k; contradiction|] end; try destruct (u_reg (g_usr (s_g s))); apply A_i_transfer; auto; rewrite El; reflexivity.
+  - unfold park_flags; try match goal with y : chanid |- _ => destruct y; [destruct k; contradiction|] end; try destruct (u_reg (g_usr (s_g s))); apply A_i_transfer; auto; rewrite El; reflexivity.
+  - unfold park_flags; try match goal with y : chanid |- _ => destruct y; [destruct k; contradiction|] end; try destruct (u_reg (g_usr (s_g s))); apply A_i_transfer; auto; rewrite El; reflexivity.
+  - unfold park_flags; try match goal with y : chanid |- _ => destruct y; [destruct k; contradiction|] end; try destruct (u_reg (g_usr (s_g s))); apply A_i_transfer; auto; rewrite El; reflexivity.
+  - unfold park_flags; try match goal with y : chanid |- _ => destruct y; [destruct k; contradiction|] end; try destruct (u_reg (g_usr (s_g s))); apply A_i_transfer; auto; rewrite El; reflexivity.
+  - unfold park_flags; try match goal with y : chanid |- _ => destruct y; [destruct k; contradiction|] end; try destruct (u_reg (g_usr (s_g s))); apply A_i_transfer; auto; rewrite El; reflexivity.
+  - unfold park_flags; try match goal with y : chanid |- _ => destruct y; [destruct k; contradiction|] end; try destruct (u_reg (g_usr (s_g s))); apply A_i_transfer; auto; rewrite El; reflexivity.
+  - unfold park_flags; try match goal with y : chanid |- _ => destruct y; [destruct k; contradiction|] end; try destruct (u_reg (g_usr (s_g s))); apply A_i_transfer; auto; rewrite El; reflexivity.
+  - unfold park_flags; try match goal with y : chanid |- _ => destruct y; [destruct k; contradiction|] end; try destruct (u_reg (g_usr (s_g s))); apply A_i_transfer; auto; rewrite El; reflexivity.
   - (* the thread is created: the owner has yet to check the queue *)
     unfold A_i, tok_i. simpl. intros _ _ _. right. apply pendU_upd_new. reflexivity.
   - (* ... it is about to *)
@@ -319,23 +319,26 @@ Proof.
     destruct (g_ist g') eqn:Hl; try (apply A_i_dead; simpl; congruence).
     apply A_i_readable. simpl. eapply signal_CI_readable; eauto.
     intros Hs. destruct Wg as (_ & W2 & _). apply W2; congruence.
-  - apply A_i_transfer; auto. rewrite El. reflexivity.
-  - apply A_i_transfer; auto. rewrite El. reflexivity.
-  - apply A_i_transfer; auto. rewrite El. reflexivity.
-  - apply A_i_transfer; auto. rewrite El. reflexivity.
-  - apply A_i_transfer; auto. rewrite El. reflexivity.
+  - unfold park_flags; try match goal with y : chanid |- _ => destruct y; [destruct k; contradiction|] end; try destruct (u_reg (g_usr (s_g s))); apply A_i_transfer; auto; rewrite El; reflexivity.
+  - unfold park_flags; try match goal with y : chanid |- _ => destruct y; [destruct k; contradiction|] end; try destruct (u_reg (g_usr (s_g s))); apply A_i_transfer; auto; rewrite El; reflexivity.
+  - unfold park_flags; try match goal with y : chanid |- _ => destruct y; [destruct k; contradiction|] end; try destruct (u_reg (g_usr (s_g s))); apply A_i_transfer; auto; rewrite El; reflexivity.
+  - unfold park_flags; try match goal with y : chanid |- _ => destruct y; [destruct k; contradiction|] end; try destruct (u_reg (g_usr (s_g s))); apply A_i_transfer; auto; rewrite El; reflexivity.
+  - unfold park_flags; try match goal with y : chanid |- _ => destruct y; [destruct k; contradiction|] end; try destruct (u_reg (g_usr (s_g s))); apply A_i_transfer; auto; rewrite El; reflexivity.
   - apply A_i_dead. simpl. discriminate.
   - (* GetOwnerWakeupSocket *)
     destruct (g_ist (s_g s)) eqn:Hl.
     + apply A_i_dead. simpl. pose proof (alloc_frame (s_g s)) as F. simpl in F. destruct F as (_ & _ & _ & F4 & _). congruence.
     + rewrite (alloc_noop _ Wg Hl). apply A_i_transfer; auto. rewrite El. reflexivity.
     + apply A_i_dead. simpl. pose proof (alloc_frame (s_g s)) as F. simpl in F. destruct F as (_ & _ & _ & F4 & _). congruence.
+  - unfold park_flags; try match goal with y : chanid |- _ => destruct y; [destruct k; contradiction|] end; try destruct (u_reg (g_usr (s_g s))); apply A_i_transfer; auto; rewrite El; reflexivity.
+  - match goal with Hu : user_step _ _ = _ |- _ => apply user_step_frame in Hu; destruct Hu as [? ->] end.
+    apply A_i_transfer; auto. rewrite El. reflexivity.
 Qed.
 
 (* where the internal thread goes after a reply / a received Message: somewhere it will look at its queue again *)
 Lemma next_reply_looks : forall evd rs q k p k' e', next_reply evd rs q k = (p, k', e') -> will_look evd p = true.
 Proof.
-  intros evd rs q k p k' e' H. unfold next_reply in H. destruct rs; inv H; [|reflexivity].
+  intros evd rs q k p k' e' H. unfold next_reply in H. destruct rs as [|[c0 m0] rest]; inv H; [|reflexivity].
   destruct q; [reflexivity|]. destruct evd; reflexivity.
 Qed.
 
@@ -358,11 +361,11 @@ Proof.
   { intros K1 K2 K3 K4. apply A_i_transfer_int; auto. rewrite El. exact K4. }
   inversion Hst; subst; clear Hst; unfold ipc_ok in Hi; simpl in Hi; try contradiction;
     try (eapply Look; [|reflexivity]; simpl; reflexivity).
-  - (* 1: a reply was signalled: continue with the next one, or poll again, or leave *)
-    destruct x; try contradiction. destr_k k.
+  - (* 1: a Message of the reaction was signalled: continue with the next one, or poll again, or leave *)
+    destr_k k.
     match goal with Hr : ret _ _ _ _ = _ |- _ => simpl in Hr; eapply Look; [|reflexivity]; rewrite <- Hc2; eapply next_reply_looks; exact Hr end.
   - (* 2 *)
-    destruct x; try contradiction. destr_k k.
+    destr_k k.
     match goal with Hr : ret _ _ _ _ = _ |- _ => simpl in Hr; eapply Look; [|reflexivity]; eapply next_reply_looks; exact Hr end.
   - (* 3: the queue was empty *)
     destruct x; [|destr_k k]. unfold A_i. simpl. intros _ _ Hq. contradiction.
@@ -407,6 +410,9 @@ Proof.
     apply Keep; auto. simpl. match goal with He : g_evd _ = true |- _ => rewrite He end. reflexivity.
   - (* 14 *)
     apply Keep; auto.
+  - (* woken by a user socket: cannot happen for the internal thread, and would make it leave *)
+    destruct x; [|destr_k k]. destr_k k.
+    match goal with Hr : ret _ _ _ _ = _ |- _ => simpl in Hr; inv Hr end. eapply Look; [|reflexivity]. reflexivity.
 Qed.
 
 Lemma A_o_user_step : forall s t p k c g' l' e',
@@ -429,9 +435,11 @@ Proof.
     inversion Hst; subst; clear Hst; unfold upc_ok in Hu; simpl in Hu; try contradiction;
       try (eapply Unp; [reflexivity | reflexivity]);
       try (destr_k k; kill_ret; eapply Unp; [reflexivity | reflexivity]);
-      try (repeat match goal with y : chanid |- _ => destruct y | y : msg |- _ => destruct y end; try contradiction;
+      try (repeat match goal with y : chanid |- _ => destruct y | y : msg |- _ => destruct y | y : uop |- _ => destruct y end; try contradiction;
            destr_k k; kill_ret; eapply Unp; [reflexivity | reflexivity]).
     all: try (destruct x; simpl in Hu; destr_k k; simpl in Hu; try contradiction; kill_ret; eapply Unp; reflexivity).
+    all: try (repeat match goal with y : chanid |- _ => destruct y | y : uop |- _ => destruct y end; simpl in Hu; try contradiction;
+              destruct k as [|[] [|? ?]]; simpl in Hu; try contradiction; kill_ret; eapply Unp; reflexivity).
     + (* the reply queue was empty *)
       destruct x; simpl in Hu; [destruct k; contradiction|]. unfold A_o. simpl. intros _ Hq. contradiction.
     + (* the owner is about to block *)
@@ -445,15 +453,13 @@ Proof.
           match goal with Hf : _ -> fd_ok _ CO = true |- _ => specialize (Hf eq_refl); unfold fd_ok in Hf; rewrite Es in Hf; simpl in Hf;
             rewrite andb_true_r in Hf; exact Hf end. }
       apply A_o_transfer; auto. rewrite El. reflexivity.
-    + destruct k as [|[] [|? ?]]; simpl in Hu; try contradiction; kill_ret; eapply Unp; reflexivity.
-    + destruct k as [|[] [|? ?]]; simpl in Hu; try contradiction; kill_ret; eapply Unp; reflexivity.
   - (* another thread's step: it can only be sending *)
     assert (Palloc : parked_o s = true -> g_sockets (s_g s) = true -> g_alloc (s_g s) = true).
     { unfold parked_o. intros Hp Hs. destruct (l_pc (s_l s 0)) eqn:Ep; try discriminate; destruct c0; try discriminate.
       - destruct w; try discriminate; rewrite Hs in Hp; simpl in Hp; exact Hp.
       - eapply Po; eauto. }
     inversion Hst; subst; clear Hst; unfold upc_ok in Hu; simpl in Hu; try contradiction;
-      try (exfalso; repeat match goal with y : chanid |- _ => destruct y | y : msg |- _ => destruct y end;
+      try (exfalso; repeat match goal with y : chanid |- _ => destruct y | y : msg |- _ => destruct y | y : uop |- _ => destruct y end;
            destruct k as [|[] [|? ?]]; simpl in Hu; try contradiction; congruence).
     + (* enqueue *)
       destruct x.
@@ -481,6 +487,11 @@ Proof.
     + apply A_o_transfer; auto;
         try (rewrite parked_o_other by auto; auto; fail);
         try (rewrite El; destruct x; reflexivity).
+    + (* an operation on the owner's user socket *)
+      match goal with Hu' : user_step _ _ = _ |- _ => apply user_step_frame in Hu'; destruct Hu' as [? ->] end.
+      apply A_o_transfer; auto;
+        try (rewrite parked_o_other by auto; auto; fail);
+        try (rewrite El; reflexivity).
 Qed.
 
 Lemma A_o_int_step : forall s p k c g' l' e',
@@ -496,9 +507,14 @@ Proof.
   assert (Same : g' = s_g s -> is_pend_o p = false -> A_o (mkS (set_il l' g') (s_l s))).
   { intros -> Hp. apply A_o_transfer_int; auto. rewrite El. exact Hp. }
   inversion Hst; subst; clear Hst; unfold ipc_ok in Hi; simpl in Hi; try contradiction;
-    try (apply Same; reflexivity).
-  - (* 1: a reply is appended *)
-    destruct x; [destruct m; contradiction|].
+    try (apply Same; reflexivity);
+    try (match goal with |- context [park_flags ?y _] => destruct y; [simpl | destruct k as [|[] [|? ?]]; contradiction] end;
+         apply Same; reflexivity).
+  - (* 1: a Message of the reaction is appended: to its own queue, or a reply *)
+    destruct x.
+    { apply A_o_transfer_int; auto;
+        try (intros R; rewrite readable_set_enq; exact R);
+        try (rewrite El; reflexivity). }
     unfold A_o, parked_o. simpl. intros Pk Hq.
     destruct (c_q (g_co (s_g s))) as [|m0 q0] eqn:Eq.
     + right. right. split; [exact Hl | reflexivity].
@@ -507,8 +523,13 @@ Proof.
       * left. rewrite <- R. unfold readable. reflexivity.
       * right. left. exact U.
       * rewrite El in I. discriminate.
-  - (* 2: the reply's signal *)
-    destruct x; try contradiction.
+  - (* 2: its signal *)
+    destruct x.
+    { match goal with Hs : signal _ _ _ = _ |- _ => pose proof Hs as Hsig; sig_frame Hs end.
+      apply A_o_transfer_int; auto;
+        try (destruct (F9 CO) as (Q & _); exact Q);
+        try (intros R; eapply signal_readable_mono; eauto);
+        try (rewrite El; reflexivity). }
     unfold A_o. intros Pk _. left. simpl.
     match goal with Hs : signal _ _ _ = _ |- _ => pose proof Hs as Hsig; sig_frame Hs end.
     assert (Pk0 : parked_o s = true).
@@ -559,7 +580,10 @@ Proof.
   intros c g l g' l' ev HS. inversion HS; subst; clear HS; simpl; eauto;
     try (left;
          try match goal with Hs : signal _ _ _ = _ |- _ => apply signal_frame in Hs end;
-         try match goal with x : chanid |- _ => destruct x end; simpl; tauto).
+         try match goal with Hu : user_step _ _ = _ |- _ => apply user_step_frame in Hu; destruct Hu as [? ->] end;
+         unfold park_flags;
+         try match goal with x : chanid |- _ => destruct x end;
+         try match goal with |- context [if u_reg ?u then _ else _] => destruct (u_reg u) end; simpl; tauto).
   - left. pose proof (absorb_frame absorb_n x g). simpl in *. tauto.
 Qed.
 
@@ -573,7 +597,9 @@ Proof.
     try (destruct x; simpl in Hu; try (destruct k; contradiction); first [left; reflexivity | right; eexists; reflexivity]);
     try (left; pose proof (absorb_frame absorb_n x g) as F; simpl in F; destruct F as (_&_&_&_&_&_&_&_&F&_); destruct (F CI) as (Q&_); exact Q);
     try (left; pose proof (alloc_frame g) as F; simpl in F; destruct F as (_&_&_&_&_&_&F); destruct (F CI) as (Q&_); exact Q);
-    try (left; pose proof (close_frame g) as F; simpl in F; destruct F as (_&_&_&_&_&_&F); destruct (F CI) as (Q&_); exact Q).
+    try (left; pose proof (close_frame g) as F; simpl in F; destruct F as (_&_&_&_&_&_&F); destruct (F CI) as (Q&_); exact Q);
+    try (left; unfold park_flags; repeat match goal with y : chanid |- _ => destruct y end; try destruct (u_reg (g_usr g)); reflexivity);
+    try (left; match goal with Hu' : user_step _ _ = _ |- _ => apply user_step_frame in Hu'; destruct Hu' as [? ->] end; reflexivity).
 Qed.
 
 (* the program counter a user thread's step leads to *)
@@ -582,7 +608,7 @@ Lemma Step_pc_user : forall t c g l g' l' ev, upc_ok t l -> Step c g l g' l' ev 
 Proof.
   intros t c g l g' l' ev Hu HS.
   inversion HS; subst; clear HS; unfold upc_ok in Hu; simpl in Hu; try contradiction;
-    repeat match goal with y : chanid |- _ => destruct y | y : msg |- _ => destruct y end; simpl in Hu; try contradiction;
+    repeat match goal with y : chanid |- _ => destruct y | y : msg |- _ => destruct y | y : uop |- _ => destruct y end; simpl in Hu; try contradiction;
     try (destruct k as [|[] [|? ?]]; simpl in Hu; try contradiction; kill_ret);
     simpl; intros; try discriminate;
     try match goal with Hq : PRecvPark _ _ = PRecvPark _ _ |- _ => inv Hq end; repeat split; auto.
@@ -614,7 +640,7 @@ Lemma pc_of_op_facts : forall o,
   (forall w, pc_of_op o <> PRecvPark CO w) /\
   (match pc_of_op o with PRecvPark CO _ | PRecvNone CO _ => false | _ => true end) = true.
 Proof.
-  intros o. destruct o as [[] ?| | | | | ]; simpl; repeat split; intros; try discriminate; eauto.
+  intros o. destruct o as [[] ?| | | | | | []]; simpl; repeat split; intros; try discriminate; eauto.
 Qed.
 
 Lemma wake_step : forall s lab s' ev, wf smode emode s -> wake s -> ok lab = true ->
